@@ -8,6 +8,9 @@ CHECKS = {
  'C02': dict(engine='RVC', cat='proof', tech=TECH_RVC,
    text='Contracts on the three BCShortestConnection bodies, BoxVolume, getShortestBoxDimension and Topology::setBox, taken from the property: lattice form with integer coefficients, inside the minimum-image brick, antisymmetry, invariance under whole-box shifts of either point, shortest image (orthorhombic always; reduced triclinic below half the smallest diagonal element), volume = |det|, height = volume / base area, box-type dispatch. Proved for all real inputs on the AST of the real code.',
    note='Assumes real arithmetic; std::round by its contract (nearest integer, odd, integer-shift equivariant); triclinic boxes in the lower-triangular column form the code documents; autoDetectBoxType is not decided.', ref='DESIGN.md section 5 C02'),
+ 'C05': dict(engine='CCV', cat='other', tech=TECH_CCV + ' (sequential lock/token protocol contracts on every path) + bounded check of all interleavings with CBMC threads',
+   text='ProcessData and Worker::Run carry ghost-state protocol contracts (own input token first, reader mutex balanced, at most one read between lock and unlock, next token released exactly once on every return path, merge exactly once under the output token) proved on the verbatim bodies for every worker id, thread count <= 4, any frame budget, both modes; the global lemma (exclusive reader and merge, frames in file order each to one worker, ordered merges in frame order, every selected frame processed) is checked over ALL interleavings of 2 workers + main for small frame counts - a bounded stand-in, reported as bounded.',
+   note='Interleaving runs are bounded (2 workers, <= 2 frames quick / 3 thorough) and use bodies after counted pointer-call rewrites (R-ptr); deadlock freedom is argued from the sequential contracts, not machine-checked; NextFrame/EvalConfiguration/MergeWorker are ghost events. One open known finding (unordered mode with a frame budget).', ref='DESIGN.md section 5 C05'),
  'C07': dict(engine='RVC', cat='proof', tech=TECH_RVC,
    text='Per-function contracts "Grad = derivative of EvaluateVar", "DF/D2F = parameter derivatives of F", "CalculateDerivative = d/dr Calculate" proved as polynomial identities over all real inputs on the AST of the real code; CBSPL and spline obligations are proved per knot window for a fixed small number of knots (reported as bounded).',
    note='Assumes real arithmetic (no rounding), the Eigen/libm contracts of the executor, clang AST = compiled code, Topology::getDist contract (r_j - r_i up to a locally constant lattice vector). Rotation invariance and tabulated-potential output are not decided.', ref='DESIGN.md section 5 C07'),
@@ -17,6 +20,9 @@ CHECKS = {
  'C13': dict(engine='CCV', cat='proof', tech=TECH_CCV,
    text='Function contract on HistogramNew::Process enforced by CBMC dfcc on the verbatim body over IEEE doubles: memory safety (no write outside the bins, no undefined conversion/overflow) for ALL finite inputs and both modes, and the single-bin frame (at most one bin changes, by exactly the weight).',
    note='Trusted: CBMC (front end, dfcc, SAT back end), its floor/isnan models, the stub struct standing for the class declaration (member names/types checked against the header).', ref='DESIGN.md section 5 C13'),
+ 'C14': dict(engine='RVC', cat='proof', tech=TECH_RVC,
+   text='The real huffmanTree<GLink>::makeTree and findHoppingDestination are executed symbolically for positive symbolic rates over every ordering the comparators can observe; on every path each event owns a set of lookup arguments of total length rate/sum(rates), thresholds are nested, every event is a leaf once (bounded in the number of events: 4 quick / 5 thorough). Marcus rates: positivity, linearity in J^2 and detailed balance k12/k21 = exp(dG/kT) for all inputs; escape rate = sum of rates; waiting time dt*k = -log(1-u).',
+   note='Assumes real arithmetic, exp/log/sqrt by their contracts, std::priority_queue/std::vector as models, one admissible order for ties; the distribution claims rest on the uniformity of the random generator (not decided). Field-term sign convention taken from the code/anchor.', ref='DESIGN.md section 5 C14'),
  'C18': dict(engine='CCV+RVC', cat='proof', tech=TECH_CCV + '; ' + TECH_RVC,
    text='wildcmp: functional contract (result != 0 <=> glob match) checked against the recursive specification for all pattern/string buffers up to N bytes (bounded, N = 4 quick / 6 thorough) plus an unbounded memory-safety and termination proof by loop contracts on the verbatim body; RangeParser: acceptance contract of ParseBlock (stride != 0, direction-consistent), loop-free step contract of iterator::operator++ (induction gives exact in-order enumeration and termination, negative strides included), print/parse round trip; IndexParser::CreateIndexString run-length contract for up to 4 (6) indices.',
    note='Trusted: CBMC, z3, string splitting / std::stoi / std::to_string / std::set as assumed contracts; bounds as stated (reported under coverage.bounded). Tokenizer, BeadList::Generate and CreateIndexVector are not decided.', ref='DESIGN.md section 5 C18'),
